@@ -14001,47 +14001,57 @@ let encodeLongCodes short long d codeListLen =
                      let grp =
                        shl32 (Npos XH) (N.sub maxLen (Npos (XO (XO (XI XH)))))
                      in
-                     let (p2, pan0) =
-                       fold_left (fun a sym1Index ->
-                         let (p2, pan0) = a in
-                         let (long1, huff0) = p2 in
-                         let sym1 = indexToSym sym1Index in
-                         let sym1Len = hc_len (aget huff0 sym1Index) in
-                         let sym1Code = hc_code (aget huff0 sym1Index) in
-                         let longBits =
-                           N.shiftr sym1Code (Npos (XO (XO (XI XH))))
-                         in
-                         let minInc =
-                           shl32 (Npos XH)
-                             (N.sub sym1Len (Npos (XO (XO (XI XH)))))
-                         in
-                         let entry =
-                           u16
-                             (N.coq_lor sym1
-                               (N.shiftl sym1Len (Npos (XO (XI (XO XH))))))
-                         in
-                         let (long2, pan1) =
-                           long_fill small_fuel (Npos (XO (XO (XO (XO (XI (XI
-                             (XI (XI (XO (XO XH))))))))))) mask32 long1 lcl
-                             longBits grp minInc entry pan0
-                         in
-                         ((long2,
-                         (aset huff0 sym1Index
-                           (hc_setcode (aget huff0 sym1Index)
-                             invalidCodeValue))), pan1)) temp ((long0, huff),
-                         pan)
-                     in
-                     let (long1, huff0) = p2 in
-                     let short1 =
-                       aset short0 firstBits
-                         (u32
-                           (N.coq_lor
-                             (N.coq_lor lcl
-                               (N.shiftl maxLen (Npos (XO (XI (XO (XI XH)))))))
-                             largeFlagBit))
-                     in
-                     ((((short1, long1), huff0), (u32 (N.add lcl grp))), pan0))
-      ((((short, long), d.litAndDistHuff), N0), false)
+                     if N.ltb (Npos (XO (XO (XO (XO (XI (XI (XI (XI (XO (XO
+                          XH))))))))))) (N.add lcl grp)
+                     then ((((short0, long0), huff), lcl), true)
+                     else let long1 =
+                            forN lcl (N.add lcl grp) (fun x t0 ->
+                              aset t0 x N0) long0
+                          in
+                          let (p2, pan0) =
+                            fold_left (fun a sym1Index ->
+                              let (p2, pan0) = a in
+                              let (long2, huff0) = p2 in
+                              let sym1 = indexToSym sym1Index in
+                              let sym1Len = hc_len (aget huff0 sym1Index) in
+                              let sym1Code = hc_code (aget huff0 sym1Index) in
+                              let longBits =
+                                N.shiftr sym1Code (Npos (XO (XO (XI XH))))
+                              in
+                              let minInc =
+                                shl32 (Npos XH)
+                                  (N.sub sym1Len (Npos (XO (XO (XI XH)))))
+                              in
+                              let entry =
+                                u16
+                                  (N.coq_lor sym1
+                                    (N.shiftl sym1Len (Npos (XO (XI (XO
+                                      XH))))))
+                              in
+                              let (long3, pan1) =
+                                long_fill small_fuel (Npos (XO (XO (XO (XO
+                                  (XI (XI (XI (XI (XO (XO XH)))))))))))
+                                  mask32 long2 lcl longBits grp minInc entry
+                                  pan0
+                              in
+                              ((long3,
+                              (aset huff0 sym1Index
+                                (hc_setcode (aget huff0 sym1Index)
+                                  invalidCodeValue))), pan1)) temp ((long1,
+                              huff), pan)
+                          in
+                          let (long2, huff0) = p2 in
+                          let short1 =
+                            aset short0 firstBits
+                              (u32
+                                (N.coq_lor
+                                  (N.coq_lor lcl
+                                    (N.shiftl maxLen (Npos (XO (XI (XO (XI
+                                      XH))))))) largeFlagBit))
+                          in
+                          ((((short1, long2), huff0), (u32 (N.add lcl grp))),
+                          pan0)) ((((short, long), d.litAndDistHuff), N0),
+      false)
   in
   let (p0, _) = p in (p0, pan)
 
